@@ -416,6 +416,11 @@ def run_layer_api(lmon, base, idx, r, sh):
         L = r.choice(["L", "ruby-3.2", "a.b.c", "it's", "with space", "é"])      # the file is <layers>/<name>.toml whatever the name looks like
         req = lambda fl: dict(op="cached", name=L, mtype="generic", restored={"action": "keep", "cause": "c"}, invalid={"action": "delete", "cause": "i"}, **fl)
         steps = [req(f1), {"op": "write_metadata", "name": L, "metadata": tomlw.tagged(md)}]
+        # the content metadata of another layer whose name extends this one's ("<L>.more"): a file of its own
+        sibling_doc = '[types]\ncache = true\n\n[metadata]\nowner = "the other layer"\n'
+        with open(os.path.join(root, "layers", L + ".more.toml"), "w") as f:
+            f.write(sibling_doc)
+        os.makedirs(os.path.join(root, "layers", L + ".more"))
         second = r.choice(["cached", "uncached", "none", "older-handle"])
         if second == "cached":
             steps.append(req(f2))
@@ -432,7 +437,11 @@ def run_layer_api(lmon, base, idx, r, sh):
                 return
         sh.evaluations += 1
         raw = open(os.path.join(root, "layers", L + ".toml"), "rb").read()
-        others = sorted(x for x in os.listdir(os.path.join(root, "layers")) if x not in (L, L + ".toml"))
+        sib = os.path.join(root, "layers", L + ".more.toml")
+        if not os.path.exists(sib) or open(sib).read() != sibling_doc:
+            sh.violation("layer-api:sibling-toml", "requests for layer %r %s the content metadata file of the layer %r" % (L, "removed" if not os.path.exists(sib) else "rewrote", L + ".more"), {"kind": "layer-api", "steps": steps})
+            return
+        others = sorted(x for x in os.listdir(os.path.join(root, "layers")) if x not in (L, L + ".toml", L + ".more", L + ".more.toml"))
         if others:
             sh.violation("layer-api:stray-file", "requests for layer %r left other entries in the layers directory: %r" % (L, others), {"kind": "layer-api", "steps": steps})
             return
